@@ -5,6 +5,7 @@ verus! {
 //@include prelude/float_opaque.rs
 //@include prelude/std_assumed.rs
 //@struct file=src/algebra/csc/core.rs name=CscMatrix
+//@struct file=src/algebra/matrix_types.rs name=Adjoint rules=R12
 //@enum file=src/algebra/matrix_types.rs name=MatrixShape rules=R12 derive="PartialEq, Eq, Clone, Copy, Structural"
 //@enum file=src/algebra/matrix_types.rs name=MatrixTriangle rules=R12 derive="PartialEq, Eq, Clone, Copy, Structural"
 
@@ -68,6 +69,7 @@ impl CscMatrix<F> {
         shape == MatrixShape::T ==> (forall|k: int| 0 <= k < M.rowval@.len() ==> initcol + #[trigger] M.rowval@[k] < old(self).colptr@.len())
             && (forall|c: int| 0 <= c < old(self).colptr@.len() ==> old(self).colptr@[c] + M.rowval@.len() <= usize::MAX),
     ensures
+        final(self).m == old(self).m, final(self).n == old(self).n,
         final(self).colptr@.len() == old(self).colptr@.len(),
         final(self).rowval@ == old(self).rowval@, final(self).nzval@ == old(self).nzval@,
         // N: column initcol+i gains the number of entries of column i of M
@@ -298,6 +300,7 @@ it
 //@contract
     requires sum_upto(old(self).colptr@, old(self).colptr@.len() as int) <= usize::MAX,
     ensures
+        final(self).m == old(self).m, final(self).n == old(self).n,
         // colptr[c] becomes the number of entries in the columns before c (exclusive prefix sum of the counts)
         final(self).colptr@.len() == old(self).colptr@.len(),
         forall|c: int| 0 <= c < old(self).colptr@.len() ==> #[trigger] final(self).colptr@[c] == sum_upto(old(self).colptr@, c),
@@ -333,6 +336,7 @@ it
             &&& forall|j1: int, j2: int| 0 <= j1 < j2 < M.rowval@.len() ==> #[trigger] dest_t(*old(self), *M, initcol as int, j1) != #[trigger] dest_t(*old(self), *M, initcol as int, j2)
         },
     ensures
+        final(self).m == old(self).m, final(self).n == old(self).n,
         final(self).arrays_ok(), final(self).rowval@.len() == old(self).rowval@.len(), final(self).colptr@.len() == old(self).colptr@.len(),
         final(MtoKKT)@.len() == old(MtoKKT)@.len(),
         // C11: N: entry j of column i of M lands at (M.rowval[j]+initrow, i+initcol), in slot dest_n; the slot is recorded
@@ -505,6 +509,73 @@ it1
         shape == MatrixTriangle::Tril ==> tril_state(*old(self), *final(self), old(blocktoKKT)@, final(blocktoKKT)@, offset as int, blockdim as int, blockdim as int, 0),
 //@end
 
+//@include units/inc/csc_alloc.rs
+
+}
+impl<'a> CscMatrix<F> {
+//@fn file=src/algebra/csc/core.rs in="From<Adjoint<'a, CscMatrix<T>>> for CscMatrix<T>" name=from as=from_adjoint rules=R1 ret=r
+//@contract
+    requires
+        M.src.colptr_ok_u(), M.src.m < usize::MAX, 2 * M.src.rowval@.len() <= usize::MAX,
+        forall|k: int| 0 <= k < M.src.rowval@.len() ==> #[trigger] M.src.rowval@[k] < M.src.m,
+    ensures
+        // C16 (transpose): the result is n x m; its column pointers count the entries of src by row; the stored entry j of
+        // src, at (row r, column i), sits in column r of the result at slot tpos(j), with row index i and the same value.
+        // j -> tpos(j) is injective (lemma_tpos_distinct), so the nnz slots of the result are exactly these entries.
+        r.m == M.src.n, r.n == M.src.m, r.colptr@.len() == r.n + 1, r.rowval@.len() == M.src.rowval@.len(), r.nzval@.len() == M.src.rowval@.len(),
+        forall|c: int| 0 <= c <= M.src.m ==> #[trigger] r.colptr@[c] == below(M.src.rowval@, c, M.src.rowval@.len() as int),
+        forall|i: int, j: int| #[trigger] M.src.in_col_u(j, i) ==> {
+            let d = tpos(M.src.rowval@, j);
+            &&& r.colptr@[M.src.rowval@[j] as int] <= d < r.colptr@[M.src.rowval@[j] + 1]
+            &&& r.rowval@[d] == i && r.nzval@[d] == M.src.nzval@[j] },
+//@pre
+        let ghost rv = M.src.rowval@;
+        let ghost nnz = M.src.rowval@.len() as int;
+        let ghost sm = M.src.m as int;
+//@after "let mut amap = vec![0usize; src.nnz()];"
+        let ghost A0 = A;
+//@after "A.colcount_block(src, 0, MatrixShape::T);"
+        let ghost A1 = A;
+        proof {
+            assert forall|c: int| 0 <= c < sm implies #[trigger] A1.colptr@[c] == count_row(rv, c, nnz) by { }
+            assert(A1.colptr@[sm] == nnz + count_row(rv, sm, nnz));
+            lemma_count_row_absent(rv, sm, nnz);
+            lemma_sum_is_below(A1.colptr@, rv, sm, nnz);
+            lemma_below_le(rv, sm, nnz);
+            assert(sum_upto(A1.colptr@, sm + 1) == sum_upto(A1.colptr@, sm) + A1.colptr@[sm]);
+        }
+//@after "A.colcount_to_colptr();"
+        let ghost A2 = A;
+        proof {
+            assert forall|c: int| 0 <= c <= sm implies #[trigger] A2.colptr@[c] == below(rv, c, nnz) by { lemma_sum_is_below_upto(A1.colptr@, rv, sm, c, nnz); }
+            assert forall|j: int| 0 <= j < nnz implies #[trigger] dest_t(A2, *src, 0, j) < A2.rowval@.len() by { lemma_tpos_range(rv, j, sm); }
+            assert forall|j1: int, j2: int| 0 <= j1 < j2 < nnz implies #[trigger] dest_t(A2, *src, 0, j1) != #[trigger] dest_t(A2, *src, 0, j2) by {
+                lemma_tpos_distinct(rv, j1, j2, sm);
+            }
+        }
+//@after "A.fill_block(src, &mut amap, 0, 0, MatrixShape::T);"
+        let ghost A3 = A;
+        proof {
+            assert forall|c: int| 0 <= c < sm implies #[trigger] A3.colptr@[c] == below(rv, c + 1, nnz) by { }
+        }
+//@after "A.backshift_colptrs();"
+        proof {
+            assert forall|c: int| 0 <= c <= sm implies #[trigger] A.colptr@[c] == below(rv, c, nnz) by {
+                if c > 0 { assert(A.colptr@[c] == A3.colptr@[c - 1]); }
+            }
+            assert forall|i: int, j: int| #[trigger] M.src.in_col_u(j, i) implies ({
+                let d = tpos(rv, j);
+                &&& A.colptr@[rv[j] as int] <= d < A.colptr@[rv[j] + 1]
+                &&& A.rowval@[d] == i && A.nzval@[d] == M.src.nzval@[j] }) by {
+                assert(M.src.colptr@[i + 1] <= M.src.colptr@[M.src.n as int]);
+                lemma_tpos_range(rv, j, sm);
+                assert(dest_t(A2, *M.src, 0, j) == tpos(rv, j));
+            }
+        }
+//@end
+}
+impl CscMatrix<F> {
+
 //@fn file=src/algebra/csc/utils.rs in="impl<T> CscMatrix<T>" name=colcount_diag rules=R1,R19,R17,zipidx:*
 //@contract
     requires
@@ -616,6 +687,7 @@ it
 //@contract
     requires old(self).colptr@.len() >= 1,
     ensures
+        final(self).m == old(self).m, final(self).n == old(self).n,
         // after a fill pass colptr[c] holds the END of column c; shifting right by one restores the column STARTS
         final(self).colptr@.len() == old(self).colptr@.len(),
         final(self).colptr@[0] == 0,
@@ -836,6 +908,77 @@ pub proof fn lemma_tril_roll(K0: CscMatrix<F>, K: CscMatrix<F>, map0: Seq<usize>
             }
         }
     }
+}
+
+
+// ---- transposition: counting entries by row ----
+// number of the first k entries with row index < c
+pub open spec fn below(rv: Seq<usize>, c: int, k: int) -> int decreases c { if c <= 0 { 0 } else { below(rv, c - 1, k) + count_row(rv, c - 1, k) } }
+// slot of entry j in the transposed matrix: after the entries of smaller rows, and after the earlier entries of its own row
+pub open spec fn tpos(rv: Seq<usize>, j: int) -> int { below(rv, rv[j] as int, rv.len() as int) + count_row(rv, rv[j] as int, j) }
+pub proof fn lemma_below_step(rv: Seq<usize>, c: int, k: int)
+    requires k >= 1, c >= 0,
+    ensures below(rv, c, k) == below(rv, c, k - 1) + (if rv[k - 1] < c { 1int } else { 0int }),
+    decreases c,
+{ if c > 0 { lemma_below_step(rv, c - 1, k); } }
+pub proof fn lemma_below_le(rv: Seq<usize>, c: int, k: int)
+    requires 0 <= k <= rv.len(), c >= 0,
+    ensures 0 <= below(rv, c, k) <= k,
+    decreases k,
+{
+    if k > 0 { lemma_below_le(rv, c, k - 1); lemma_below_step(rv, c, k); } else { lemma_below_zero(rv, c); }
+}
+pub proof fn lemma_below_zero(rv: Seq<usize>, c: int)
+    requires c >= 0,
+    ensures below(rv, c, 0) == 0,
+    decreases c,
+{ if c > 0 { lemma_below_zero(rv, c - 1); } }
+pub proof fn lemma_below_mono(rv: Seq<usize>, a: int, b: int, k: int)
+    requires 0 <= a <= b, 0 <= k <= rv.len(),
+    ensures below(rv, a, k) <= below(rv, b, k),
+    decreases b,
+{ if a < b { lemma_below_mono(rv, a, b - 1, k); lemma_count_row_le(rv, b - 1, k); } }
+pub proof fn lemma_count_row_mono(rv: Seq<usize>, r: int, a: int, b: int)
+    requires 0 <= a <= b <= rv.len(),
+    ensures count_row(rv, r, a) <= count_row(rv, r, b),
+    decreases b,
+{ if a < b { lemma_count_row_mono(rv, r, a, b - 1); } }
+pub proof fn lemma_count_row_absent(rv: Seq<usize>, r: int, k: int)
+    requires 0 <= k <= rv.len(), forall|q: int| 0 <= q < rv.len() ==> #[trigger] rv[q] < r,
+    ensures count_row(rv, r, k) == 0,
+    decreases k,
+{ if k > 0 { lemma_count_row_absent(rv, r, k - 1); } }
+// the exclusive prefix sums of the per-row counts are the `below` numbers
+pub proof fn lemma_sum_is_below(cp: Seq<usize>, rv: Seq<usize>, c: int, nnz: int)
+    requires 0 <= c <= cp.len(), forall|q: int| 0 <= q < c ==> #[trigger] cp[q] == count_row(rv, q, nnz),
+    ensures sum_upto(cp, c) == below(rv, c, nnz),
+    decreases c,
+{ if c > 0 { lemma_sum_is_below(cp, rv, c - 1, nnz); } }
+pub proof fn lemma_sum_is_below_upto(cp: Seq<usize>, rv: Seq<usize>, sm: int, c: int, nnz: int)
+    requires 0 <= c <= sm <= cp.len(), forall|q: int| 0 <= q < sm ==> #[trigger] cp[q] == count_row(rv, q, nnz),
+    ensures sum_upto(cp, c) == below(rv, c, nnz),
+{ lemma_sum_is_below(cp, rv, c, nnz); }
+// entry j lands inside the slot range of its row
+pub proof fn lemma_tpos_range(rv: Seq<usize>, j: int, sm: int)
+    requires 0 <= j < rv.len(), forall|q: int| 0 <= q < rv.len() ==> #[trigger] rv[q] < sm,
+    ensures below(rv, rv[j] as int, rv.len() as int) <= tpos(rv, j) < below(rv, rv[j] + 1, rv.len() as int) <= rv.len(),
+{
+    let r = rv[j] as int; let n = rv.len() as int;
+    lemma_count_row_le(rv, r, j);
+    assert(count_row(rv, r, j + 1) == count_row(rv, r, j) + 1);
+    lemma_count_row_mono(rv, r, j + 1, n);
+    lemma_below_le(rv, r + 1, n);
+}
+pub proof fn lemma_tpos_distinct(rv: Seq<usize>, j1: int, j2: int, sm: int)
+    requires 0 <= j1 < j2 < rv.len(), forall|q: int| 0 <= q < rv.len() ==> #[trigger] rv[q] < sm,
+    ensures tpos(rv, j1) != tpos(rv, j2),
+{
+    let r1 = rv[j1] as int; let r2 = rv[j2] as int; let n = rv.len() as int;
+    lemma_tpos_range(rv, j1, sm); lemma_tpos_range(rv, j2, sm);
+    if r1 == r2 {
+        assert(count_row(rv, r1, j1 + 1) == count_row(rv, r1, j1) + 1);
+        lemma_count_row_mono(rv, r1, j1 + 1, j2);
+    } else if r1 < r2 { lemma_below_mono(rv, r1 + 1, r2, n); } else { lemma_below_mono(rv, r2 + 1, r1, n); }
 }
 
 // ---- fill_block: abstract cursor discipline
